@@ -136,6 +136,26 @@ def unlock_and_compare(ctx, text, cfg, want_ok, attrs, det, phrase=PASS):
             if v.attr != snap:
                 ctx.violation({**attrs, "fail": "attr-changed-on-failure", "after": "success"}, det)
                 return False
+        # the helper classes behind it: one KeySafe object asked several times judges every passphrase on its own
+        from dissect.hypervisor.descriptor.vmx import KeySafe
+        kst = before.get("encryption.keysafe")
+        if kst:
+            wrong = phrase + "x" if phrase != "x" else "y"
+            try:
+                ks = KeySafe.from_text(kst)
+                k1 = ks.unseal_with_phrase(phrase)
+                try:
+                    ks.unseal_with_phrase(wrong)
+                    ctx.violation({**attrs, "fail": "accepted-wrong-passphrase-after-success", "how": "keysafe-object"}, {**det, "phrase": phrase})
+                    return False
+                except Exception:  # noqa: BLE001
+                    pass
+                if ks.unseal_with_phrase(phrase) != k1 or KeySafe.from_text(kst).unseal_with_phrase(phrase) != k1:
+                    ctx.violation({**attrs, "fail": "second-unlock-differs", "how": "keysafe-object"}, {**det, "phrase": phrase})
+                    return False
+            except Exception as e:  # noqa: BLE001
+                ctx.violation({**attrs, "fail": "second-unlock", "how": "keysafe-object"}, {**det, "error": f"{type(e).__name__}: {e}"[:200], "phrase": phrase})
+                return False
         # a fresh object parsed from the same text starts locked again, and stays so when given another passphrase
         v3 = VMX.parse(text)
         if dict(v3.attr) != before:
